@@ -78,17 +78,25 @@ def _rest_outcome(r):
 def make_bodies(specs):
     """fresh bodies (and a fresh agent when a REST request is among them); returns (bodies, finish)"""
     from yabgp.message.update import Update
+    import yabgp.core.protocol, yabgp.core.factory, yabgp.core.fsm, yabgp.api.v1, yabgp.api.utils      # noqa
+    threads.install_cooperative_locks()      # locks of the code under test hand the baton over instead of blocking the process
     w = None
+    cfg = dict(next((s[1] for s in specs if s[0] == 'cfg'), {}))
+    specs = [s for s in specs if s[0] not in ('cfg', 'either')]
     if any(s[0] in ('rest', 'event') for s in specs):
         from . import world as W
-        w = W.replay({}, ESTABLISHED, _messages())
+        w = W.replay(cfg, ESTABLISHED, _messages())
         w.sim.effects = []
     bodies = []
     for s in specs:
-        if s[0] == 'construct':
+        if s[0] == 'msg':
+            bodies.append(_msg_body(s[1]))
+        elif s[0] == 'construct':
             bodies.append(lambda s=s: Update.construct(copy.deepcopy(s[1]), s[2]))
         elif s[0] == 'parse':
-            data = Update.construct(copy.deepcopy(s[1]), s[2])
+            # the octets come from the reference encoder: the process stays cold for the bodies (see threads.explore, cold=True)
+            from .ref import upd
+            data = upd.encode_update(copy.deepcopy(s[1]), s[2], False, None)
             bodies.append(lambda s=s, data=data: Update.parse(None, data[19:], s[2]))
         elif s[0] == 'event':
             bodies.append(_event_body(w, s[1]))
@@ -109,10 +117,40 @@ def make_bodies(specs):
             # counters are those of the *current* connection: once it is gone there is nothing C18 compares them with
             from .ref import wire
             dropped = [m for e in w.sim.effects if e[0] == 'write-dropped' for m in wire.abstract_writes(e[2])]
+            if cfg.get('rib'):
+                return ([m for _, d in t.writes for m in wire.abstract_writes(d)] + dropped, t.connected, w.reported_state(), _rib(p))
             return ([m for _, d in t.writes for m in wire.abstract_writes(d)] + dropped, t.connected, bool(t.disconnecting), w.reported_state(),
                     dict(p.msg_sent_stat) if p is not None and t.connected else None)
-        return sorted(bytes(d) for _, d in t.writes), dict(p.msg_sent_stat)
+        return sorted(bytes(d) for _, d in t.writes), dict(p.msg_sent_stat), _rib(p) if cfg.get('rib') else None
     return bodies, finish
+
+
+def _rib(p):
+    from . import world as W
+    if p is None:
+        return None
+    return W._summ({'in': getattr(p, 'adj_rib_in', None), 'out': getattr(p, 'adj_rib_out', None),
+                    'rv': getattr(p, 'receive_version', None), 'sv': getattr(p, 'send_version', None)})
+
+
+def _msg_body(kind):
+    """the other messages the agent builds (in the reactor thread) while a worker thread builds an UPDATE"""
+    def run():
+        from yabgp.message.keepalive import KeepAlive
+        from yabgp.message.notification import Notification
+        from yabgp.message.route_refresh import RouteRefresh
+        from yabgp.message.open import Open
+        if kind == 'keepalive':
+            return KeepAlive().construct()
+        if kind == 'notification':
+            return Notification().construct(6, 2, b'\x01\x02\x03')
+        if kind == 'route_refresh':
+            return RouteRefresh(2, 128).construct(128)
+        if kind == 'open':
+            return Open(version=4, asn=65001, hold_time=180, bgp_id='10.0.0.1').construct({'four_bytes_as': True, 'route_refresh': True,
+                                                                                          'afi_safi': [(1, 1), (2, 1)]})
+        raise ValueError(kind)
+    return run
 
 
 def same(a, b):
@@ -120,17 +158,18 @@ def same(a, b):
 
 
 def _either(specs):
-    return any(s[0] == 'event' for s in specs)
+    """the two bodies need not commute (a reactor event; two sends that touch the same route): linearizability instead"""
+    return any(s[0] in ('event', 'either') for s in specs)
 
 
-def explore_pair(specs, bound, max_cuts=None):
+def explore_pair(specs, bound, max_cuts=None, cold=False):
     """threads.explore with the wire as a third observation"""
     rt = root()
 
     def mk():
         bodies, finish = make_bodies(specs)
         return _WithFinish(bodies, finish)
-    return threads.explore(mk, bound, rt, same=same, max_cuts=max_cuts, either_order=_either(specs))
+    return threads.explore(mk, bound, rt, same=same, max_cuts=max_cuts, either_order=_either(specs), cold=cold)
 
 
 class _WithFinish(list):
@@ -141,11 +180,12 @@ class _WithFinish(list):
 
 
 def task(args):
-    prop, label, specs, bound, max_cuts = args
-    r = explore_pair(specs, bound, max_cuts)
+    prop, label, specs, bound, max_cuts = args[:5]
+    cold = len(args) > 5 and args[5]
+    r = explore_pair(specs, bound, max_cuts, cold)
     viol = []
     for kind, det in r['violations']:
-        viol.append(('%s|threads|%s|%s' % (prop, label, kind), dict(det, label=label, specs=report.pack(specs), bound=bound)))
+        viol.append(('%s|threads|%s|%s' % (prop, label, kind), dict(det, label=label, specs=report.pack(specs), bound=bound, cold=cold)))
     classes = set((label, o) for o in r['outcomes'])
     return r['executions'], viol, classes, {'label': label, 'lines': r['lines'], 'stride': r['stride'], 'bound': bound, 'executions': r['executions']}
 
@@ -172,15 +212,22 @@ def replay(prop, witness):
     def mk():
         bodies, finish = make_bodies(specs)
         return _WithFinish(bodies, finish)
-    for _ in range(2):
-        threads.sequential(mk, rt)
-    r01, r10, lines = threads.sequential(mk, rt)
+    if witness.get('cold'):
+        r01, lines, _ = threads._forked(threads._cold_run, mk, 0, [], rt)
+        r10, _, _ = threads._forked(threads._cold_run, mk, 1, [], rt)
+    else:
+        for _ in range(2):
+            threads.sequential(mk, rt)
+        r01, r10, lines = threads.sequential(mk, rt)
     if 'cuts' not in witness:
         return [('sequential order matters', {'first_then_second': repr(r01)[:300], 'second_then_first': repr(r10)[:300]})] if not same(r01, r10) else []
     cuts = [tuple(c) for c in witness['cuts']]
-    r, _, _ = threads.run_schedule(mk(), witness['start'], cuts, rt)
+    if witness.get('cold'):
+        r, _, _ = threads._forked(threads._cold_run, mk, witness['start'], cuts, rt)
+    else:
+        r, _, _ = threads.run_schedule(mk(), witness['start'], cuts, rt)
     out = []
-    if not same(r, r01):
+    if not same(r, r01) and not (_either(specs) and same(r, r10)):
         out.append(('interleaving result differs from the sequential one', {'start': witness['start'], 'cuts': cuts, 'got': repr(r)[:600], 'sequential': repr(r01)[:600]}))
     return out
 
@@ -281,16 +328,55 @@ def _event_pairs(reqs, events):
 
 def pairs_c18(tier):
     s = '/v1/peer/<ip>/send/update'
+    b = '/v1/peer/<ip>/send/bin_update'
+    upd = _messages()['UPD'].hex()
+    return [('send/bin_update x send/update (counters)', [('rest', 'POST', b, {'binary_data': upd + upd}), ('rest', 'POST', s, COMM_X)]),
+            ('send/bin_update x send/bin_update (counters)', [('rest', 'POST', b, {'binary_data': upd + upd}), ('rest', 'POST', b, {'binary_data': upd})]),
+            ('send/update x send/route-refresh (counters)', [('rest', 'POST', s, COMM_X), ('rest', 'POST', '/v1/peer/<ip>/send/route-refresh', {'afi': 1, 'safi': 1, 'res': 0})])] \
+        + _pairs_c18_events(tier)
+
+
+def _pairs_c18_events(tier):
+    s = '/v1/peer/<ip>/send/update'
     reqs = [('send/update', ('POST', s, COMM_X)), ('send/route-refresh', ('POST', '/v1/peer/<ip>/send/route-refresh', {'afi': 1, 'safi': 1, 'res': 0}))]
     return _event_pairs(reqs, (('RX', 0, 'KA'), ('RX', 0, 'NOTIF_CEASE'), ('PEER_CLOSE', 0)))
 
 
+def pairs_c14(tier):
+    """OPEN / NOTIFICATION / KEEPALIVE / ROUTE-REFRESH are built in the reactor thread while worker threads build UPDATEs"""
+    a, b = _rich()
+    kinds = ('keepalive', 'notification', 'route_refresh', 'open')
+    out = [('%s x UPDATE construct' % k, [('msg', k), ('construct', a, True)]) for k in kinds]
+    out += [('%s x %s' % (x, y), [('msg', x), ('msg', y)]) for x, y in (('keepalive', 'route_refresh'), ('notification', 'open'), ('keepalive', 'notification'),
+                                                                         ('route_refresh', 'open'))]
+    return out
+
+
+RIB_X = {'attr': {'1': 0, '2': [[2, [65001]]], '3': '10.0.0.1'}, 'nlri': ['10.9.0.0/16', '10.10.0.0/16'], 'withdraw': []}
+RIB_Y = {'attr': {'1': 0, '2': [[2, [65001, 65009]]], '3': '10.0.0.1', '4': 7}, 'nlri': ['10.7.0.0/16', '10.8.0.0/24', '10.6.0.0/16']}
+RIB_Z = {'attr': {'1': 0, '2': [[2, [65001]]], '3': '10.0.0.1'}, 'nlri': ['10.9.0.0/16'], 'withdraw': []}
+
+
+def pairs_c19(tier):
+    """RIB maintenance on: two sends in two worker threads (Adj-RIB-Out and its version counter), a send x a received UPDATE"""
+    s = '/v1/peer/<ip>/send/update'
+    cfg = ('cfg', {'rib': True})
+    return [('send/update x send/update (rib on, disjoint routes)', [cfg, ('rest', 'POST', s, RIB_X), ('rest', 'POST', s, RIB_Y)]),
+            ('send/update x send/update (rib on, one new route in common, same attributes)', [cfg, ('rest', 'POST', s, RIB_Y), ('rest', 'POST', s, dict(RIB_Y, nlri=['10.7.0.0/16', '10.5.0.0/16']))]),
+            ('send/update x send/update (rib on, one new route in common, other attributes)', [cfg, ('either',), ('rest', 'POST', s, RIB_X), ('rest', 'POST', s, dict(RIB_Y, nlri=['10.9.0.0/16', '10.5.0.0/16']))]),
+            ('send/update x withdraw of the same route (rib on)', [cfg, ('either',), ('rest', 'POST', s, RIB_Z), ('rest', 'POST', s, {'withdraw': ['10.9.0.0/16']})]),
+            ('send/update x received UPDATE (rib on)', [cfg, ('rest', 'POST', s, RIB_X), ('event', ('RX', 0, 'UPD'))])]
+
+
 def tasks(prop, tier):
-    pairs = {'C06': pairs_c06, 'C07': pairs_c07, 'C16': pairs_c16, 'C17': pairs_c17, 'C18': pairs_c18}[prop](tier)
+    pairs = {'C06': pairs_c06, 'C07': pairs_c07, 'C14': pairs_c14, 'C16': pairs_c16, 'C17': pairs_c17, 'C18': pairs_c18, 'C19': pairs_c19}[prop](tier)
     out = []
     for label, specs in pairs:
         # one preemption: every cut point (quick: at most 400 per body, bodies of thousands of lines are thinned)
         out.append((prop, label, specs, 1, 500 if tier == 'quick' else None))
+        # the same from a cold start (each execution in a fresh process that has never run the bodies): first-use races
+        if not any(s[0] == 'event' for s in specs):
+            out.append((prop, label + ' [cold start]', specs, 1, 120 if tier == 'quick' else 400, True))
     if tier == 'thorough':
         # two preemptions (the second thread is itself preempted) on the first pair of the property, 150 cut points per body
         out.append((prop, pairs[0][0] + ' [2 preemptions]', pairs[0][1], 2, 150))
